@@ -12,6 +12,10 @@ VALUE_POOL = schemagen.ENUM_VALUES + ["A", "a_b", "a-b", "AB", "aB", "Ab", " lea
                                       "0", "-", "", " ", "X", "x", "_", "é"]
 
 
+# formats typify does not map to a native type (they stay strings): spellings close to the recognised ones included
+UNKNOWN_FORMATS = ["partial-date-time", "time", "duration", "email", "uri", "Date", "DATE-TIME", "uuid4", "ip-address", "regex"]
+
+
 def gen_doc(r):
     defs = {}
     n = r.randrange(2, 6)
@@ -38,7 +42,7 @@ def gen_doc(r):
         elif k < 0.65:
             s = {"type": "string"}
         elif k < 0.8:
-            s = {"type": "string", "format": r.choice(schemagen.STR_FORMATS)}
+            s = {"type": "string", "format": r.choice(schemagen.STR_FORMATS + UNKNOWN_FORMATS)}
         elif k < 0.9 and stringish:
             s = {"$ref": "#/definitions/" + r.choice(stringish)}
         else:
@@ -48,7 +52,7 @@ def gen_doc(r):
                 if b < 0.4:
                     branches.append({"type": "string", "enum": r.sample(VALUE_POOL, r.randrange(1, 4))})
                 elif b < 0.7:
-                    branches.append({"type": "string", "format": r.choice(schemagen.STR_FORMATS)})
+                    branches.append({"type": "string", "format": r.choice(schemagen.STR_FORMATS + UNKNOWN_FORMATS)})
                 elif stringish and b < 0.85:
                     branches.append({"$ref": "#/definitions/" + r.choice(stringish)})
                 else:
